@@ -16,8 +16,7 @@
 
    Number model
      * integers / unscaled decimals: Z.  Checked operations of the source (`checked_add` in
-       SumStateCheckedAdd) are `Err` outside the accumulator width; the native `+=` on the i128 accumulator of
-       AVG(decimal) is `Panic` outside i128 (dev profile: overflow-checks on; a release build wraps instead).
+       SumStateCheckedAdd, and since 2f7b0a8b9 in AvgStateDecimal) are `Err` outside the accumulator width.
        The `count: i64` fields use native `+= 1` / `+=`: a wrap needs 2^63 rows and is not modelled (Z); the
        i128 sum of AVG(bigint) and AVG(decimal64) needs 2^64 rows to overflow and is not modelled either.
      * f64 accumulators: EXACT rationals Q, every result kept in lowest terms (`Qred`, so that equal numbers
@@ -180,16 +179,18 @@ Definition avg_f : agg Q (Q * Z) fres :=
     (fun s o => let '(sum, count) := s in let '(osum, ocount) := o in Ok (qadd sum osum, count + ocount))
     (fun s => let '(sum, count) := s in avg_final sum count).
 
-(* AvgStateDecimal<I> { scale: f64, sum: i128, count: i64 }: native `sum += input.into()` (the only
-   accumulator of this file that a few rows can overflow: Decimal128 inputs), `count += 1`;
+(* AvgStateDecimal<I> { scale: f64, sum: i128, count: i64 } (since 2f7b0a8b9):
+     update: sum = sum.checked_add(input.into()).ok_or("Avg overflowed")?; count += 1
+     merge:  sum = sum.checked_add(other.sum).ok_or("Avg overflowed")?; count += other.count
+   (the only AVG accumulator that a few rows can overflow: Decimal128 inputs);
    finalize: count == 0 -> NULL, else `(sum as f64) / (count as f64 * scale)`.
    sc = the bind state's `scale` factor. *)
 Definition avg_d (sc : Q) : agg Z (Z * Z) fres :=
   mkAgg (0, 0)
     (fun s x => let '(sum, count) := s in
-                if in_i 128 (sum + x) then Ok (sum + x, count + 1) else Panic)
+                if in_i 128 (sum + x) then Ok (sum + x, count + 1) else Err)
     (fun s o => let '(sum, count) := s in let '(osum, ocount) := o in
-                if in_i 128 (sum + osum) then Ok (sum + osum, count + ocount) else Panic)
+                if in_i 128 (sum + osum) then Ok (sum + osum, count + ocount) else Err)
     (fun s => let '(sum, count) := s in
               if count =? 0 then FNull else frat (qdiv (qz sum) (qmul (qz count) sc))).
 
